@@ -488,6 +488,6 @@ LEVEL_TEXT = ('Machine-checked: a write analysis over PyMini (heap semantics wit
               'its process-event notifier, except ClangBinarySearchPass.transform (slot real_num_instances of its cursor); new() sets at most '
               'two named configuration slots. Picklability, determinism and "writes only the candidate, leaves no scratch file" are observed '
               'on the real pass objects along random histories, and every field observed to change must be allowed by the Coq summary.')
-LEVEL_NOTE = ('Partial: picklability / determinism / scratch files are runtime facts checked on explored runs. Trusted: Coq kernel, the '
+LEVEL_NOTE = ('Partial: picklability / determinism (also across processes started with different string-hash seeds; IfPass and UnIfDefPass through a unifdef stand-in) / scratch files are runtime facts checked on explored runs. Trusted: Coq kernel, the '
               'fail-closed translator and its library whitelist (cross-checked every run by the snapshot comparison on the real objects).')
 TECHNIQUE = 'Rocq proof (sound interprocedural write/alias analysis over a heap semantics) on IR regenerated from the Python source + deep-snapshot / pickle / double-run differential on the real pass objects'
